@@ -8,7 +8,7 @@ E = 'include/jsoncons/json_encoders.hpp'
 W = 'include/jsoncons/utility/write_number.hpp'
 RES = '__CPROVER_return_value'
 
-LOOP = '''__CPROVER_assigns(it, count, vx_k, vx_mon, vx_bad, vx_out_n, vx_out_nonascii, vx_raw_solidus, vx_esc_solidus, vx_thrown)
+LOOP = '''__CPROVER_assigns(it, count, vx_k, vx_mon, vx_bad, vx_out_n, vx_out_nonascii, vx_raw_solidus, vx_esc_solidus, vx_thrown, vx_w_base, __CPROVER_object_whole(vx_w))
   __CPROVER_loop_invariant(__CPROVER_same_object(it, vx_in) && __CPROVER_POINTER_OFFSET(it) <= vx_len && vx_k == __CPROVER_POINTER_OFFSET(it)
       && vx_mon.st == STR_TEXT && !vx_bad && count == vx_out_n && vx_thrown == 0 && count <= 12 * vx_k
       && (escape_all_non_ascii ==> !vx_out_nonascii) && (escape_solidus ==> !vx_raw_solidus) && (!escape_solidus ==> !vx_esc_solidus))
@@ -16,7 +16,7 @@ LOOP = '''__CPROVER_assigns(it, count, vx_k, vx_mon, vx_bad, vx_out_n, vx_out_no
 CONTRACT = [
     ('requires', 'vx_len <= VX_IN_MAX && s == (const char*)vx_in && length == vx_len && vx_k == 0 && vx_mon.st == STR_TEXT && !vx_bad && vx_out_n == 0 && vx_thrown == 0'),
     ('requires', '!vx_out_nonascii && !vx_raw_solidus && !vx_esc_solidus'),
-    ('assigns', 'vx_k, vx_mon, vx_bad, vx_out_n, vx_out_nonascii, vx_raw_solidus, vx_esc_solidus, vx_thrown'),
+    ('assigns', 'vx_k, vx_mon, vx_bad, vx_out_n, vx_out_nonascii, vx_raw_solidus, vx_esc_solidus, vx_thrown, vx_w_base, __CPROVER_object_whole(vx_w)'),
     ('ensures', '[C01][C08] without an exception: the output lies in the RFC 8259 string-interior language and decodes (escapes, \\\\uXXXX, surrogate pairs) back to exactly the input, byte for byte',
      'vx_thrown == 0 ==> (!vx_bad && vx_mon.st == STR_TEXT && vx_k == vx_len)'),
     ('ensures', '[C01][C08] the return value is the number of characters written', 'vx_thrown == 0 ==> %s == vx_out_n' % RES),
@@ -26,7 +26,9 @@ CONTRACT = [
      'vx_thrown != 0 ==> (vx_thrown == VX_THROW_ser_error && escape_all_non_ascii && !vx_bad && vx_k < vx_len && !vx_wf_at(vx_k))'),
 ]
 RULES = [
-    (r'\bconst CharT\*', 'const char*', 3, 4), (r'\bCharT c\b', 'char c', 1),
+    (r'\bconst CharT\*', 'const char*', 3, 4),
+    # R6 ghost insertion: load the (at most 4) input bytes this iteration can consume into a ghost window, once
+    (r'\bCharT c = \*it;', 'char c = *it; vx_window((size_t)(it - (const char*)vx_in));', 1),
     (r'sink\.push_back\(', 'vx_esc_out(', 30, 60),
     (r'jsoncons::to_hex_character\(', 'to_hex_character(', 12),
     (r'auto r = unicode_traits::to_codepoint\(it, end, cp, unicode_traits::strict_flag::strict\);', 'struct unicode_result r = to_codepoint(it, end, &cp, strict_flag_strict);', 1),
